@@ -155,7 +155,7 @@ Definition decode_cell (chk : bool) (bs : list N) : cellr :=
     let attr' := if is_short then N.land attr (N.lxor SHORT_DATA 0xFFFF) else attr in
     if attr' =? INVISIBLE then CSkip r else
     if is_short then
-      if chk && shorter r 3 then CErr else
+      if chk && shorter r 4 then CErr else                             (* C02 fix d6295fe: was `o + 3 > len` *)
       match take 4 r with Some (f, r') => CCell (byte_at f 0) r' | None => CPanic end
     else
       if chk && shorter r 14 then CErr else
@@ -197,11 +197,11 @@ Definition cells (conv : N -> option N) (chk : bool) (y0 w h : Z) (bs : list N) 
 (* read_utf8_encoded_string: u32 length prefix, then that many bytes; returns (string, bytes consumed) *)
 Definition read_string (sconv : list N -> list N) (data : list N) : outcome (list N * list N) :=
   match take 4 data with
-  | None => Panic
+  | None => Rejected                                  (* C02 fix 4f977d8: None -> Err(FileTooShort) in both callers *)
   | Some (p, r) =>
     let size := le32 (byte_at p 0) (byte_at p 1) (byte_at p 2) (byte_at p 3) in
     match take (N.to_nat size) r with
-    | None => Panic
+    | None => Rejected
     | Some (s, rest) => Done (sconv s, rest)
     end
   end.
@@ -220,7 +220,7 @@ Definition line_count (ev : list event) : Z := fold_left (fun m e => Z.max m (sn
 Definition icy_layer (sconv : list N -> list N) (conv : N -> option N) (bytes : list N) : outcome icy_layer_result :=
   match read_string sconv bytes with
   | Done (title, r) =>
-    if shorter r 6 then Panic
+    if shorter r 41 then Rejected                       (* C02 fix 2015626: FileTooShort before any field is read *)
     else if 2 <? byte_at r 5 then Rejected
     else match take 41 r with
     | None => Panic
@@ -232,10 +232,9 @@ Definition icy_layer (sconv : list N -> list N) (conv : N -> option N) (bytes : 
                  + 4294967296 * le32 (byte_at hd 37) (byte_at hd 38) (byte_at hd 39) (byte_at hd 40) in
       let o := N.of_nat (length bytes - length body) in
       if role =? 1 then
-        if shorter body 16 then Panic
+        if shorter body 16 then Rejected                  (* C02 fix 2015626 *)
         else Done {| l_title := title; l_image := true; l_width := w; l_height := h; l_cells := [] |}
-      else if 18446744073709551616 <=? o + len then Panic               (* o + length overflows usize *)
-      else if N.of_nat (length bytes) <? o + len then Rejected
+      else if N.of_nat (length body) <? len then Rejected                (* C02 fix bcdfc94: `bytes.len() - o < length` *)
       else omap (fun ev => {| l_title := title; l_image := false; l_width := w; l_height := h; l_cells := ev |})
                 (cells conv true 0 w h body)
     end
@@ -244,7 +243,7 @@ Definition icy_layer (sconv : list N -> list N) (conv : N -> option N) (bytes : 
 
 (* LAYER_n~k payload for a Normal layer of size w x h whose lines vector has [lines] rows *)
 Definition icy_continue (conv : N -> option N) (w h lines : Z) (bytes : list N) : outcome (list event) :=
-  cells conv false lines w h bytes.
+  cells conv true lines w h bytes.                     (* C02 fix 294b0bb: the same length checks as the first chunk *)
 
 (* ------------------------------------------------------------------ fonts *)
 
